@@ -80,5 +80,7 @@ if __name__ == '__main__':
         confirm(sys.argv[2], sys.argv[3])
     elif sys.argv[1] == 'confirm2':
         confirm(sys.argv[2], sys.argv[3], '/tmp/seeds2', 'r2')
+    elif sys.argv[1] == 'confirm3':
+        confirm(sys.argv[2], sys.argv[3], '/tmp/seeds3', 'r3')
     else:
         run(sys.argv[2], sys.argv[3:])
